@@ -1,4 +1,5 @@
 import SamVerif.Model.ErrorSet
+import SamVerif.Model.Layout
 import Driver.Util
 /-! Protocol `errset` (C12): builds per-module error sets with the model of
 `samlang_errors::ErrorSet`, merges them in the given order and prints the resulting sequence.
@@ -60,6 +61,23 @@ def step (_ : Unit) (line : String) : Unit × String :=
     let pm := (groups.splitOn ";").map parseGroup
     let out := render ids pm
     ((), if out.isEmpty then "-" else ",".intercalate (out.map showErr))
+  | ["layout", defs, roots] =>
+    -- defs: `name:variant|variant;...`, variant = field types joined by `+` (`i` int, number = enum), `-` = no field
+    let parseTy (t : String) : SamVerif.Layout.Ty := if t == "i" then .int else .id t.toNat!
+    let parseVariant (v : String) : List SamVerif.Layout.Ty :=
+      if v == "-" then [] else (v.splitOn "+").map parseTy
+    let ds : SamVerif.Layout.Defs := (defs.splitOn ";").filterMap fun d =>
+      match d.splitOn ":" with
+      | [n, vs] => some (n.toNat!, (vs.splitOn "|").map parseVariant)
+      | _ => none
+    let st := SamVerif.Layout.layoutAll ds (natsOf roots)
+    let showV : SamVerif.Layout.VLayout → String
+      | .int31 => "i" | .unboxed => "u" | .boxed => "b"
+    let items := ds.map fun (n, _) =>
+      match SamVerif.Layout.lookup st.done n with
+      | some l => s!"{n}:" ++ ",".intercalate (l.map showV)
+      | none => s!"{n}:?"
+    ((), " ".intercalate items)
   | _ => ((), "bad-op")
 
 def run : IO Unit := runLoop () step
